@@ -64,7 +64,8 @@ def module_source(kinds, layout='functions'):
     """returns (source, [(unique_callname, callname, kind)]) in collection order.
     layout 'functions': one function per doctest; 'mixed': functions, a class with methods, and a
     function holding two google-style Example blocks"""
-    src = ['"""module docstring without doctests"""', '']
+    # (module globals that are merely CALLED like __future__ features or like xdoctest options switch nothing on)
+    src = ['"""module docstring without doctests"""', '', "annotations = {'a': 1}", "division = 'north'", 'verbose = 0', '']
     ids = []
     i = 0
     n = len(kinds)
